@@ -9,6 +9,21 @@ VERIF = os.path.dirname(os.path.dirname(os.path.abspath(__file__)))
 # id -> (category, technique, level text, level note, design ref)
 CHECKS: dict[str, tuple[str, str, str, str, str]] = {}
 NOT_APPLICABLE: dict[str, str] = {}
+# later strengthenings, appended to the level texts below
+EXTRA = {
+    "C01": " Every 4th payload of the wrap runs is 180-200 bytes long (data field beyond 128 bytes).",
+    "C02": " Plus every control byte 0..255 with a valid CRC in front of four data fields, whole and bytewise; host ACK/NAK frames must carry res = nRdy = 0.",
+    "C04": " Short sequences are also run next to a second, busy AshProtocol object (isolation between objects); host ACK/NAK frames must carry res = nRdy = 0; numeric attributes that grow without bound along a probe run (diagnostic counters) are excluded from the canonical state and listed in the evidence.",
+    "C05": " Further moves: a NAK whose ackNum covers the outstanding frame, the caller of the outstanding send cancelled, the host's own reset request on a failed link followed by a send.",
+    "C06": " The deviation window of the 300-command run is placed at the wrap and at the start (a deviation met again 256 commands later); re-negotiation cases replace the protocol handler on the live EZSP object and use the same commands again.",
+    "C08": " Isolation cases: a pending command is never ended by a frame given to another EZSP object in the process or to the handler that replaced its own.",
+    "C10": " Also: the failure frame in the same read as the frame already on the line; a silent NCP with callers that give up after 4 s each.",
+    "C13": " Plus a reset and re-negotiation on the same EZSP object after a timed-out command, followed by callbacks that carry the stale sequence byte.",
+    "C17": " Isolation: the completing event is delivered to a second EZSP object in the same process only (the operation must keep waiting, nothing may remain registered on either object).",
+    "C18": " Undefined 32-bit unified codes must keep their numeric value through construction, wire decoding and conversion.",
+    "C19": " Outcomes include the NCP answering the keep-alive with invalidCommand; the protocol handler is replaced (reset + re-negotiation) before feed k of every outcome sequence of length 3.",
+    "C20": " Plus a proxy of a proxy used from the caller's loop, and six forced-order lifecycle cases on a real bellows.thread.EventLoopThread (stop request and one call queued in either order while the owner's loop is held busy; calls after the thread ended must be dropped).",
+}
 
 
 def reg(pid, category, technique, text, note, ref):
@@ -191,6 +206,7 @@ def build() -> dict:
         if pid not in CHECKS:
             continue
         cat, tech, text, note, ref = CHECKS[pid]
+        text = text + EXTRA.get(pid, "")
         checks.append({
             "property_id": pid,
             "quick_cmd": f"./check {pid} --tier quick",
